@@ -13,7 +13,8 @@ Line-protocol driver for the C19 model (query pipeline).
 A *gate* is the point in front of `stage.execute(node)` (instruction `exec`): the only place where
 the harness can park a goroutine of the real code without touching lindb's source.  `rel` is a
 sequence of atomic model steps of one goroutine, so every harness schedule is a model schedule.
-The variant of `completeStage` is the regenerated fact `completePassesFirstError`.
+The variant of the model is selected by the regenerated facts `completePassesFirstError` and
+`stageRecoversPanic`.
 -/
 import LinVerif.Util.Proto
 import LinVerif.Model.Pipeline
@@ -22,7 +23,7 @@ import LinVerif.Generated.C19
 namespace LinVerif.Driver.C19
 open LinVerif LinVerif.Pipeline
 
-def cfg : Cfg := cfgOf Generated.C19.completePassesFirstError
+def cfg : Cfg := cfgOf Generated.C19.completePassesFirstError Generated.C19.stageRecoversPanic
 
 structure St where
   pipe : Option State
